@@ -227,6 +227,13 @@ def setidx(x): x[0] = x[0]
 def setkey(d, k): d[k] = 1
 def iadd(x):
     x += [1]
+def iadd_tuple(x):
+    x += (1,)
+def iadd_range(x):
+    x += range(1)
+def iadd_elem(x):
+    o = [x]
+    o[0] += (1,)
 def ior_d(d, k):
     d |= {k: 1}
 def ior_s(s, k):
@@ -253,6 +260,12 @@ func (e *c06Env) mutators(kind string) []mutator {
 			{"remove", func(e *c06Env, v starlark.Value) error { return e.callMethod(v, "remove", p1) }},
 			{"x[i]=", func(e *c06Env, v starlark.Value) error { return e.callHelper("setidx", v) }},
 			{"x+=", func(e *c06Env, v starlark.Value) error { return e.callHelper("iadd", v) }},
+			{"x+=tuple", func(e *c06Env, v starlark.Value) error { return e.callHelper("iadd_tuple", v) }},
+			{"x+=range", func(e *c06Env, v starlark.Value) error { return e.callHelper("iadd_range", v) }},
+			{"o[0]+=tuple", func(e *c06Env, v starlark.Value) error { return e.callHelper("iadd_elem", v) }},
+			{"extend(list)", func(e *c06Env, v starlark.Value) error {
+				return e.callMethod(v, "extend", starlark.NewList([]starlark.Value{np}))
+			}},
 		}
 	case "dict":
 		return []mutator{
